@@ -370,6 +370,65 @@ func runC09(c *an.Ctx) {
 		}
 	}
 
+	// a rule runs its own actions and the inherited default ones: when the two lists are merged, an action is left
+	// out only because of its class (metadata defaults; the default disruptive action when the rule has its own) —
+	// never because of its name or value, so an inherited setvar/ctl is not displaced by the rule's setvar and a
+	// repeated log/nolog/auditlog keeps its position (the flags depend on the order)
+	if ma := c.Fn("R1", "internal/seclang.mergeActions"); ma != nil {
+		nApp := 0
+		an.Instrs(ma, func(in ssa.Instruction) {
+			if !an.IsBuiltinCall(in, "append") {
+				return
+			}
+			nApp++
+			var foreign []string
+			for _, a := range an.FactsAt(in) {
+				switch {
+				case strings.HasSuffix(a.L, ".Atype"):
+				case strings.HasSuffix(a.L, ".Key") && strings.HasPrefix(a.R, "\""):
+				case strings.Contains(a.L, "rangeindex") || strings.Contains(a.R, "len("):
+				case a.R == "true" || a.R == "false":
+					// the "rule has its own disruptive action" flag
+					if strings.Contains(a.L, "(") && !strings.HasPrefix(a.L, "φ(") && !strings.HasPrefix(a.L, "*") {
+						foreign = append(foreign, tempName.ReplaceAllString(a.String(), ""))
+					}
+				default:
+					foreign = append(foreign, tempName.ReplaceAllString(a.String(), ""))
+				}
+			}
+			c.Check(len(foreign) == 0, "R1", fmt.Sprintf("mergeActions: append #%d depends on the action's class only", nApp), in.Pos(), "guards on Atype / the block keyword / the disruptive flag",
+				"when merging a rule's actions with the inherited defaults an action is kept only if additionally "+strings.Join(foreign, ", ")+": actions are then dropped by name or value — an inherited setvar/ctl disappears when the rule has one of its own, or a repeated nolog/auditlog loses its place in the order the logging flags depend on")
+		})
+		c.MinCount("R1", "appends in mergeActions", nApp, 3)
+	}
+
+	// %{COLLECTION.key} expands to the first value stored under the key whenever there is one — an empty value
+	// is a value (an unset capture group, a flag, an empty argument); only a missing key falls back to the text
+	if et := c.FnOpt("experimental/plugins/macro.expandToken"); et != nil {
+		nRet := 0
+		an.Instrs(et, func(in ssa.Instruction) {
+			r, ok := in.(*ssa.Return)
+			if !ok || len(r.Results) != 1 {
+				return
+			}
+			e := tempName.ReplaceAllString(an.Expr(r.Results[0]), "")
+			if !strings.Contains(e, ".Get(") || !strings.Contains(e, "[") {
+				return
+			}
+			nRet++
+			var foreign []string
+			for _, a := range an.FactsAt(r) {
+				l := tempName.ReplaceAllString(a.L, "")
+				if strings.Contains(l, ".Get(") && strings.Contains(l, ")[") {
+					foreign = append(foreign, tempName.ReplaceAllString(a.String(), ""))
+				}
+			}
+			c.Check(strings.HasSuffix(e, "[0]") && len(foreign) == 0, "R5", "macro expansion returns the first value stored under the key", r.Pos(), e,
+				"the value a keyed macro expands to is "+e+" under "+strings.Join(foreign, ", ")+": a variable that exists with an empty value (an empty capture, a flag set without value, an empty argument) no longer expands to \"\" — setvar keys and sums built from it are computed from the macro's own text or from another value")
+		})
+		c.MinCount("R5", "keyed returns of expandToken", nRet, 1)
+	}
+
 	// ---- R3 RULE collection and capture flag before anything of the rule runs
 	if de != nil && execOp != nil {
 		var firstUse ssa.Instruction
